@@ -406,3 +406,106 @@ theorem two_find_links_accepted :
   decide +kernel
 
 end RV.BZ
+
+/-! ### the label of a find-links wheel above the lock's package (D50) -/
+namespace RV.BZ
+
+open RV.ST
+
+theorem splitChar_ne_nil' (c : Char) (s : Str) : splitChar c s ≠ [] := by
+  induction s with
+  | nil => simp [splitChar]
+  | cons x xs ih =>
+    simp only [splitChar]
+    cases h : splitChar c xs with
+    | nil => simp
+    | cons a t => simp only []; split <;> simp
+
+theorem splitChar_no_sep (c : Char) (a : Str) (h : c ∉ a) : splitChar c a = [a] := by
+  induction a with
+  | nil => rfl
+  | cons x xs ih =>
+    have hx : x ≠ c := fun e => h (by rw [e]; exact List.mem_cons_self)
+    have := ih (fun e => h (List.mem_cons_of_mem _ e))
+    simp [splitChar, this, hx]
+
+theorem splitChar_append_sep (c : Char) (a b : Str) (h : c ∉ a) :
+    splitChar c (a ++ c :: b) = a :: splitChar c b := by
+  induction a with
+  | nil =>
+    simp only [List.nil_append, splitChar]
+    cases hb : splitChar c b with
+    | nil => exact absurd hb (splitChar_ne_nil' c b)
+    | cons x t => simp
+  | cons x xs ih =>
+    have hx : x ≠ c := fun e => h (by rw [e]; exact List.mem_cons_self)
+    have := ih (fun e => h (List.mem_cons_of_mem _ e))
+    simp [splitChar, this, hx]
+
+theorem splitChar_joinSlash' (ss : List Str) (hne : ss ≠ []) (h : ∀ s ∈ ss, '/' ∉ s) :
+    splitChar '/' (joinSlash ss) = ss := by
+  induction ss with
+  | nil => exact absurd rfl hne
+  | cons s rest ih =>
+    cases rest with
+    | nil => simpa [joinSlash] using splitChar_no_sep '/' s (h s (by simp))
+    | cons t rest' =>
+      simp only [joinSlash]
+      rw [splitChar_append_sep '/' s _ (h s (by simp))]
+      rw [ih (by simp) (fun x hx => h x (List.mem_cons_of_mem _ hx))]
+
+/-- **whlLabel_names_the_file**: a wheel written as `k` parent steps, any directories `mid`, the wheel directory `w` and the
+file `f`, read from a lock in the package `pkgParts`: the label's package is the lock's package minus `k` directories plus
+`mid`, its target `w/f` - package and target together are the path of the file (`normpath(lock package / location)`),
+whatever stands between the parent steps and the wheel directory.  (`hcount`: the text holds `../` exactly `k` times, i.e.
+no other directory name ends in two dots.) -/
+theorem whlLabel_names_the_file (pkgParts mid : List Str) (w f : Str) (k : Nat)
+    (hpk : pkgParts ≠ []) (hseg : ∀ s ∈ pkgParts, '/' ∉ s)
+    (hseg2 : ∀ s ∈ mid ++ [w, f], '/' ∉ s ∧ s ≠ "..".toList ∧ s ≠ ".".toList)
+    (hcount : countSub "../".toList (joinSlash (List.replicate k "..".toList ++ mid ++ [w, f])) = k) :
+    whlLabel (joinSlash pkgParts) (joinSlash (List.replicate k "..".toList ++ mid ++ [w, f]))
+      = (joinSlash (pkgParts.take (pkgParts.length - k) ++ mid), w ++ '/' :: f) := by
+  unfold whlLabel
+  have hall : ∀ s ∈ List.replicate k "..".toList ++ mid ++ [w, f], '/' ∉ s := by
+    intro s hs
+    rcases List.mem_append.1 hs with h1 | h1
+    · rcases List.mem_append.1 h1 with h2 | h2
+      · rw [(List.mem_replicate.1 h2).2]; decide
+      · exact (hseg2 s (List.mem_append_left _ h2)).1
+    · exact (hseg2 s (List.mem_append_right _ h1)).1
+  rw [splitChar_joinSlash' pkgParts hpk hseg, splitChar_joinSlash' _ (by simp) hall, hcount]
+  have hfil : (List.replicate k "..".toList ++ mid ++ [w, f]).filter (fun part => decide (part ≠ "..".toList ∧ part ≠ ".".toList))
+      = mid ++ [w, f] := by
+    rw [List.append_assoc, List.filter_append]
+    have h1 : (List.replicate k "..".toList).filter (fun part => decide (part ≠ "..".toList ∧ part ≠ ".".toList)) = [] := by
+      apply List.filter_eq_nil_iff.2
+      intro a ha
+      rw [(List.mem_replicate.1 ha).2]; simp
+    have h2 : (mid ++ [w, f]).filter (fun part => decide (part ≠ "..".toList ∧ part ≠ ".".toList)) = mid ++ [w, f] := by
+      apply List.filter_eq_self.2
+      intro a ha
+      have := hseg2 a ha
+      simpa using ⟨this.2.1, this.2.2⟩
+    rw [h1, h2]; rfl
+  rw [hfil]
+  have hlen : (mid ++ [w, f]).length - 2 = mid.length := by simp
+  simp only [hlen]
+  simp
+
+/-- non-vacuity, kernel-checked on the model (one and two parent steps, none, one and two directories in between) -/
+theorem whlLabel_samples :
+    whlLabel "pkg".toList "../third_party/wheels/alpha-1.0-py3-none-any.whl".toList
+      = ("third_party".toList, "wheels/alpha-1.0-py3-none-any.whl".toList) ∧
+    whlLabel "third_party/python".toList "../shared/wheeldir/lib-0.1.whl".toList
+      = ("third_party/shared".toList, "wheeldir/lib-0.1.whl".toList) ∧
+    whlLabel "a/b/c".toList "../../x/y/wheels/f.whl".toList = ("a/x/y".toList, "wheels/f.whl".toList) ∧
+    whlLabel "pkg/sub".toList "../wheels/f.whl".toList = ("pkg".toList, "wheels/f.whl".toList) := by
+  decide +kernel
+
+/-- D50 as it was: `third_party` is lost, the label names `//:wheels/alpha…` -/
+theorem d50_old_reading_witness :
+    whlLabelOld "pkg".toList "../third_party/wheels/alpha-1.0-py3-none-any.whl".toList
+      = ([], "wheels/alpha-1.0-py3-none-any.whl".toList) := by
+  decide +kernel
+
+end RV.BZ
